@@ -169,7 +169,9 @@ func (cm *ConstMap) Get(k constant.Value) constant.Value {
 
 func (cm *ConstMap) GetS(s string) constant.Value { return cm.Get(constant.MakeString(s)) }
 
-func boolVal(v constant.Value) bool { return v != nil && v.Kind() == constant.Bool && constant.BoolVal(v) }
+func boolVal(v constant.Value) bool {
+	return v != nil && v.Kind() == constant.Bool && constant.BoolVal(v)
+}
 func intVal(v constant.Value) int64 {
 	if v == nil {
 		return -1
